@@ -221,6 +221,15 @@ class Driver:
             exc = e
         self.emit({"op": "install", "m": m}, exc)
 
+    def op_complete_model(self, m):
+        """Model.complete(): the environment keeps working exactly as before (a completed model is falsy: bool(model) is is_running())."""
+        exc = None
+        try:
+            self.models[m][0].complete()
+        except Exception as e:  # noqa: BLE001
+            exc = e
+        self.emit({"op": "install", "m": m}, exc)      # same trace action: nothing observable changes
+
     def op_agent(self, a, m, tag):
         a = tuple(a)
         mod = self.models[m][0]
@@ -494,7 +503,7 @@ def delta_pool(e, fine):
 
 
 def random_run(rng, *, kinds=("plain",), n_models=2, n_ids=3, length=40, mods="clean", spatial=True,
-               queries=True, lookups=True, tags=(None, None, 0, 1, 7), weights=None, nseeds=0, guests=False, late_install=False):
+               queries=True, lookups=True, tags=(None, None, 0, 1, 7), weights=None, nseeds=0, guests=False, late_install=False, completes=True):
     """Returns (program, events).  mods: 'clean' = never touch components of resident agents;
     'sanctioned' = residents only with the explicit (de)register calls; 'any' = also without them."""
     d = Driver()
@@ -545,6 +554,8 @@ def random_run(rng, *, kinds=("plain",), n_models=2, n_ids=3, length=40, mods="c
         return d.where(a) is not None
 
     for step_no in range(length):
+        if completes and rng.random() < 0.04:
+            do(["complete_model", rng.choice(list(worlds))])
         if pending_install and (rng.random() < 0.12 or step_no == length - 3):
             do(["install", pending_install.pop()])
         m = rng.choice(list(worlds))
